@@ -25,6 +25,9 @@ class _FloatMeta(type):
             c = x.reshape(-1)[0]
             if _bi.isinstance(c, (SR, Dual)):
                 return c
+        if _bi.isinstance(x, _bi.str) and x.strip().startswith('@'):
+            from .npx import parse_number_text
+            return parse_number_text(x)
         return _bi.float(x)
 
 
